@@ -583,6 +583,7 @@ package keeper
 //@ ensures[C03.ok C01.gate C14.ok] (err == nil) <==> (attested(old(st), msg.Message, old(msg.Attestation)) && headerOK(old(st), msg.Message, msg.From) && (toModule(msg.Message) ? (burnOK(old(st), msg.Message) && !depFails(0) && !emitErr(0) && !emitErr(1)) : !emitErr(0)))
 //@ ensures[C12.sr]    err == nil ==> !srPausedIn(old(st))
 //@ ensures[C12.bm]    err == nil && toModule(msg.Message) ==> !bmPausedIn(old(st))
+//@ ensures[C12.nomint] err == nil && bmPausedIn(old(st)) ==> calls == [] && len(events) == 1
 //@ ensures[C02.fresh] err == nil ==> len(msg.Message) >= 116 && !old(st.usedNonces.has[u32be(msg.Message, 4)][u64be(msg.Message, 12)])
 //@ ensures[C02.mark]  err == nil ==> st.usedNonces.has[u32be(msg.Message, 4)][u64be(msg.Message, 12)]
 //@ ensures[C14.mint]  depFails(0) && toModule(msg.Message) ==> err != nil
